@@ -57,11 +57,14 @@ def parse(rc, out):
     return v, ended
 
 
-def ddmin(lines, test, budget=120):
-    """delta debugging over trace lines; `test(lines) -> bool` is True when the failure persists"""
+def ddmin(lines, test, budget=120, seconds=90):
+    """delta debugging over trace lines; `test(lines) -> bool` is True when the failure persists.
+    Bounded by `budget` calls and `seconds` of wall time (a failure that is a hang costs a timeout per call)"""
+    import time
     n = 2
     calls = 0
-    while len(lines) >= 2 and calls < budget:
+    t0 = time.time()
+    while len(lines) >= 2 and calls < budget and time.time() - t0 < seconds:
         chunk = max(1, len(lines) // n)
         reduced = False
         for i in range(0, len(lines), chunk):
@@ -70,7 +73,7 @@ def ddmin(lines, test, budget=120):
             if cand and test(cand):
                 lines = cand; n = max(n - 1, 2); reduced = True
                 break
-            if calls >= budget: break
+            if calls >= budget or time.time() - t0 >= seconds: break
         if not reduced:
             if chunk == 1: break
             n = min(n * 2, len(lines))
@@ -81,7 +84,7 @@ def shrink(exe, lines, kind):
     tmp = os.path.join(vlib.BUILD, "shrink_%d.trace" % os.getpid())
     def test(ls):
         open(tmp, "w").write("\n".join(ls) + "\n")
-        rc, out, err = run_one(exe, tmp, dump=False, timeout=60)
+        rc, out, err = run_one(exe, tmp, dump=False, timeout=20)
         v, ended = parse(rc, out)
         return any(k == kind for _, k, _ in v)
     # cut everything after the failing op first (cheap), then ddmin
@@ -91,8 +94,22 @@ def shrink(exe, lines, kind):
     return out
 
 
-def run_traces(res, pid, plan, seed, dump=True, options=None, exe=None, tag="", clock=False, skip_kinds=(), keep_outputs=None):
-    """plan: list of (profile, ntraces, nops).  Fills res.cov and reports violations of `pid`'s kinds."""
+def with_full_dumps(lines, every):
+    """insert the trace op DUMP (full state for the Coq composite model, ocaml mode "compose") after every
+    `every`-th line and at the end"""
+    out = []
+    for i, l in enumerate(lines):
+        out.append(l)
+        if (i + 1) % every == 0:
+            out.append("DUMP")
+    if not out or out[-1] != "DUMP":
+        out.append("DUMP")
+    return out
+
+
+def run_traces(res, pid, plan, seed, dump=True, options=None, exe=None, tag="", clock=False, skip_kinds=(), keep_outputs=None, fulldump=0):
+    """plan: list of (profile, ntraces, nops).  Fills res.cov and reports violations of `pid`'s kinds.
+    fulldump = n > 0: about n full-state dumps per trace (op DUMP), replayed against the composite model (mode compose)"""
     exe = exe or build(res)
     if exe is None:
         return None
@@ -104,6 +121,8 @@ def run_traces(res, pid, plan, seed, dump=True, options=None, exe=None, tag="", 
         for i in range(ntr):
             s = seed * 1000 + i
             lines = gen_trace.make_trace(profile, s, nops, options, clock)
+            if fulldump and dump:
+                lines = with_full_dumps(lines, max(10, len(lines) // fulldump))
             path = os.path.join(tdir, "%s_%d.trace" % (profile, s))
             open(path, "w").write("\n".join(lines) + "\n")
             jobs.append((profile, s, path, lines))
@@ -135,7 +154,7 @@ def run_traces(res, pid, plan, seed, dump=True, options=None, exe=None, tag="", 
                             stats["cov:" + k] += int(val)
                             if int(val) > 0: stats["covtraces:%s:%s" % (k, profile)] += 1
     # model replay of the page dumps
-    mism = []; pstats = collections.Counter()
+    mism = []; pstats = collections.Counter(); cmism = []
     if dump:
         okb, txt = vlib.ocaml_build()
         if not okb:
@@ -143,12 +162,24 @@ def run_traces(res, pid, plan, seed, dump=True, options=None, exe=None, tag="", 
         else:
             def rp(path):
                 rc, mout = vlib.model_replay("page", outputs[path])
+                if fulldump:
+                    rc2, mout2 = vlib.model_replay("compose", outputs[path])
+                    cl = mout2.splitlines()
+                    if rc2 != 0 or not any(l.startswith("DONE") for l in cl):
+                        cl.append("MISMATCH compose: model replay (mode compose) crashed: " + mout2[-300:].replace("\n", " "))
+                    mout += "\n" + "\n".join("C" + l for l in cl if l.startswith(("MISMATCH", "STATS compose")))
                 return path, rc, mout
             with concurrent.futures.ThreadPoolExecutor(max_workers=int(vlib.JOBS)) as ex:
                 for path, rc, mout in ex.map(rp, list(outputs)):
                     for l in mout.splitlines():
                         if l.startswith("MISMATCH"):
                             mism.append((path, l))
+                        if l.startswith("CMISMATCH"):
+                            cmism.append((path, l[1:]))
+                        m = re.match(r'CSTATS compose dumps=(\d+) segments=(\d+) pages=(\d+) blocks=(\d+) huge_segments=(\d+) interior_pointers=(\d+)', l)
+                        if m:
+                            for k, v in zip(("compose_dumps", "compose_segments", "compose_pages", "compose_live_blocks", "compose_huge_segments", "compose_interior_pointers"), m.groups()):
+                                pstats[k] += int(v)
                         m = re.match(r'STATS page invariants=(\d+) transitions_checked=(\d+) transitions_unchecked=(\d+)', l)
                         if m:
                             pstats["page_invariants_checked"] += int(m.group(1)); pstats["page_transitions_checked"] += int(m.group(2)); pstats["page_transitions_unchecked"] += int(m.group(3))
@@ -177,6 +208,14 @@ def run_traces(res, pid, plan, seed, dump=True, options=None, exe=None, tag="", 
             res.violation("corr:" + mclass(l), "page model / implementation disagreement in %d dumps, first: %s (trace %s)" % (len(mine_m), l, path), witness=None)
         else:
             vlib.log("[corr] %d page-model disagreements, e.g. %s" % (len(mine_m), l))
+    if fulldump:
+        res.cov["compose_mismatches"] = res.cov.get("compose_mismatches", 0) + len(cmism)
+        if cmism and pid == "C01":
+            path, l = cmism[0]
+            if not mine:
+                res.violation("corr:compose", "composite model (Coq mem_inv_b / abs) and implementation disagree in %d checks, first: %s (trace %s)" % (len(cmism), l[:900], path), witness=None)
+            else:
+                vlib.log("[corr] %d composite-model disagreements, e.g. %s" % (len(cmism), l[:400]))
     res.cov["evaluations"] += stats["ops"]
     res.cov["traces_validated_against_impl"] += stats["traces"]
     res.cov["disagreements_checked"] += len(mism)
